@@ -204,7 +204,10 @@ func (g *GRE) SerializeTo(b gopacket.SerializeBuffer, opts gopacket.SerializeOpt
 			binary.BigEndian.PutUint16(buf[offset:offset+2], sre.AddressFamily)
 			buf[offset+2] = sre.SREOffset
 			buf[offset+3] = sre.SRELength
-			copy(buf[offset+4:offset+4+int(sre.SRELength)], sre.RoutingInformation)
+			// the prepended bytes are not zeroed: clear what RoutingInformation does not cover
+			for i := offset + 4 + copy(buf[offset+4:offset+4+int(sre.SRELength)], sre.RoutingInformation); i < offset+4+int(sre.SRELength); i++ {
+				buf[i] = 0
+			}
 			offset += 4 + int(sre.SRELength)
 			sre = sre.Next
 		}
